@@ -481,13 +481,21 @@ func checkC20Containers(w *World, c *Check, kinds []nilKind) {
 			guard(c, grp, func() {
 				ex := w.NewExec()
 				st := newState()
-				// callee contracts: ItemsEqual and IRI.Equals are total pure relations here (their own
-				// nil-safety is a row of the function matrix above / property C14)
-				ex.installIRIEqualsHook()
-				ex.hooks["ItemsEqual"] = func(ex *Exec, st *State, f *ssa.Function, a []Value) (Value, bool) {
-					return App("itemsEq", SBool, ex.abstractItem(asItemVal(a[0])), ex.abstractItem(asItemVal(a[1]))), true
-				}
+				// callee contracts: ItemsEqual, IRI.Equals and IsNil are total pure relations here (their own
+				// nil-safety is a row of the function matrix above / property C14); the loops of the container
+				// operations are cut by the invariants written for C13
+				installItemsEqContract(ex)
 				fn := w.Method(tg.recv, tg.method)
+				if cs, err := LoadContracts(); err == nil {
+					for name := range cs.Funcs {
+						if !strings.HasSuffix(name, ".Append") {
+							ex.UseLoops(cs, name)
+						}
+					}
+					// Append's written invariants carry C13's functional contract and need its preconditions; for
+					// no-panic the trivial invariant (arbitrary loop state) is enough
+					ex.autoInv = true
+				}
 				rt := w.Type(tg.recv)
 				var recv Value
 				var cbs []CallRec
@@ -514,6 +522,9 @@ func checkC20Containers(w *World, c *Check, kinds []nilKind) {
 					c.Add(&Obligation{Name: fmt.Sprintf("%s/nopanic/%s@%s#%d", grp, p.Kind, p.Fn, i), Group: grp, Common: ex.assumes,
 						Goal: Not(p.C), Pos: p.Pos, Funcs: []string{"(" + tg.recv + ")." + tg.method}, Bounded: bound,
 						Replay: c20ContainerReplay(tg.recv, tg.method, k)})
+				}
+				for _, so := range ex.sideObls {
+					c.Add(&Obligation{Name: fmt.Sprintf("%s/loop/%s", grp, so.Name), Group: grp, Common: ex.assumes, Hyps: []*Term{so.Hyp}, Goal: so.Goal, Pos: so.Pos, Funcs: []string{"(" + tg.recv + ")." + tg.method}, Bounded: bound})
 				}
 				for _, so := range ex.sideObls {
 					c.Add(&Obligation{Name: fmt.Sprintf("%s/loop/%s", grp, so.Name), Group: grp, Common: ex.assumes, Hyps: []*Term{so.Hyp}, Goal: so.Goal, Pos: so.Pos, Funcs: []string{"(" + tg.recv + ")." + tg.method}, Bounded: bound})
